@@ -94,3 +94,50 @@ def _v11(repo, mod):
 def _v12(repo, mod):
     fn = repo.func(PP, "ForwardIterativeMinimizationVisitor.visit_default_test_case")
     return insert_before(mod, _guard(fn), "_unused = i")
+
+
+from sa.selftest.harness import node_text  # noqa: E402
+
+
+@variant("C22", "asserted-skips-unbound-statements", PP, "C22.asserted", "assertions on a statement without a bound variable are not seen")
+def _v20(repo, mod):
+    fn = repo.func(PP, "_directly_asserted_variables")
+    inner = find_stmt(fn, lambda s: isinstance(s, ast.For) and norm(s.iter) == "statement.assertions")
+    return insert_before(mod, inner, "if statement.bound_variable is None:\n    continue")
+
+
+@variant("C22", "asserted-keeps-attribute-path", PP, "C22.asserted", "`var_0.field` is protected under that name, not as var_0")
+def _v21(repo, mod):
+    fn = repo.func(PP, "_directly_asserted_variables")
+    c = find_node(fn, lambda n: isinstance(n, ast.Subscript) and "split" in norm(n))
+    return replace_node(mod, c, "source")
+
+
+@variant("C22", "comparison-reads-cached-coverage", GEN, "C22.restore", "suite not marked changed before the minimised coverages (the repaired defect)")
+def _v22(repo, mod):
+    fn = repo.func(GEN, "_minimize")
+    s = find_stmt(fn, lambda s: norm(s) == "generation_result.changed = True")
+    return delete_stmt(mod, s)
+
+
+@variant("C22", "restore-queries-all-functions-at-once", GEN, "C22.restore", "get_coverage_for(<collection>) in the restore path (the repaired defect)")
+def _v23(repo, mod):
+    fn = repo.func(GEN, "_minimize")
+    s = find_stmt(fn, lambda s: isinstance(s, ast.Assign) and norm(s.targets[0]) == "restored_coverages")
+    return replace_node(mod, s.value, "generation_result.get_coverage_for(fitness_functions)")
+
+
+@variant("C22", "minimiser-after-the-comparison-values", GEN, "C22.restore", "a suite minimiser runs after the minimised coverages were taken")
+def _v24(repo, mod):
+    fn = repo.func(GEN, "_minimize")
+    s = find_stmt(fn, lambda s: isinstance(s, ast.Assign) and "_check_coverage" in norm(s.value))
+    return insert_before(mod, s, "generation_result.accept(pp.TestSuiteMinimizationVisitor(fitness_functions))")
+
+
+@variant("C22", "twin-minimize-locals-renamed", GEN, None, "renaming the locals of _minimize stays silent")
+def _v25(repo, mod):
+    fn = repo.func(GEN, "_minimize")
+    text = node_text(mod, fn)
+    for old, new in (("is_same", "unchanged"), ("minimized_coverages", "after"), ("original_coverages", "before"), ("original_test_suite", "backup"), ("fitness_functions", "coverage_functions")):
+        text = text.replace(old, new)
+    return replace_node(mod, fn, text)
